@@ -642,6 +642,7 @@ void AwaitTaskCase(Ctx& ctx) {
   ResetTags();
   int head = static_cast<int>(ctx.rng.Below(6));  // 0 coroutine, 1 Schedule(e,f), 2 Schedule(f), 3 LazyContract, 4 MakeTask, 5 LazyContract(e)
   int form = static_cast<int>(ctx.rng.Below(2));  // 0 co_await std::move(task), 1 Await(task)
+  bool touch_move = ctx.rng.Coin();                // Await(task): read the result with Touch() const& or take it with Touch() &&
   bool extra = ctx.rng.Coin();                    // .ThenInline(h) after the head
   bool head_fails = ctx.rng.Below(4) == 0;
   int code = static_cast<int>(ctx.rng.In(1, 1000));
@@ -726,6 +727,14 @@ void AwaitTaskCase(Ctx& ctx) {
     if (started.load(kRlx) != 1 || !t.Valid() || !t.Ready()) {
       bad.fetch_add(1, kRlx);
       co_return Tracked{-1};
+    }
+    if (touch_move) {
+      // the completed Task gives its result away: afterwards it holds nothing and everything it owned is released
+      R r = std::move(t).Touch();
+      if (r.State() != yaclib::ResultState::Value) {
+        co_return MyError{r.State() == yaclib::ResultState::Error ? std::as_const(r).Error().code : -5};
+      }
+      co_return Tracked{std::as_const(r).Value().v};
     }
     const R& r = std::as_const(t).Touch();
     if (r.State() != yaclib::ResultState::Value) {
